@@ -178,9 +178,13 @@ class BaseDiscretizer(BaseEstimator, TransformerMixin):
             else:
                 labels = [value for value in values if value != self.str_nan]  # (removing str_nan)
 
-            # add NaNs if there are any
+            # add NaNs if there are any (at their own position in the order)
             if self.str_nan in values:
-                labels += [self.str_nan]
+                other_labels = iter(labels)
+                labels = [
+                    self.str_nan if value == self.str_nan else next(other_labels)
+                    for value in values
+                ]
 
             # requested float output (AutoCarver) -> converting to integers
             if output_dtype == "float":
